@@ -279,6 +279,9 @@ func engineConc(ctx *engineCtx) {
 			cfg.policy = 0
 		}
 		tz := g.rtZone()
+		if si%8 == 2 || si%8 == 4 {
+			tz = nil // no zone configured ("UTC will be used") with a stateless extension: the default is resolved per call, not stored
+		}
 		sc := concScenario{Name: fmt.Sprintf("scenario%02d", si), Cfg: cfgToInts(cfg), ExtKind: extKind, Zone: zoneName(tz), Goroutines: goroutines, Rounds: rounds}
 		nIn := 4 + g.r.Intn(4)
 		var rtBytes, stBytes [][]byte
